@@ -458,6 +458,10 @@ class VC:
             for _ in range(pushed): self.guard.pop()
         return And(*vals) if isinstance(e.op, ast.And) else Or(*vals)
 
+    def ev_Await(self, e, P):
+        # `await <call>`: the callee's handler decides what the suspension may change (e.g. havoc of shared state: other coroutines run)
+        return self.ev(e.value, P)
+
     def ev_IfExp(self, e, P):
         c = self.truth(self.ev(e.test, P), P)
         if c is True: return self.ev(e.body, P)
@@ -834,10 +838,45 @@ class VC:
     def st_Continue(self, st, P): return [(P, 'continue')]
 
     # ---------- loops
-    def loop_key(self):
-        k = self.sib.get(tuple(self.loop_stack), 0)
-        self.sib[tuple(self.loop_stack)] = k + 1
-        return '.'.join(map(str, self.loop_stack + [k])), k
+    def loop_key(self, st=None):
+        """syntactic key of a loop: ordinal path among the loops of the function ('0', '0.0', '1', ...), independent of how many
+        paths reach the loop"""
+        if not hasattr(self, '_loop_keys'):
+            self._loop_keys = {}
+            def walk(stmts, prefix):
+                k = 0
+                for s in stmts:
+                    if isinstance(s, (ast.FunctionDef, ast.AsyncFunctionDef, ast.ClassDef, ast.Lambda)): continue
+                    if isinstance(s, (ast.For, ast.While)):
+                        self._loop_keys[id(s)] = (prefix + [k])
+                        walk(s.body, prefix + [k]); walk(s.orelse, prefix + [k])      # loops nested in body/orelse
+                        k += 1
+                    else:
+                        for fld in ('body', 'orelse', 'finalbody'):
+                            sub = getattr(s, fld, None)
+                            if isinstance(sub, list) and sub and isinstance(sub[0], ast.stmt):
+                                k = walk_inner(sub, prefix, k)
+                        for h in getattr(s, 'handlers', []) or []:
+                            k = walk_inner(h.body, prefix, k)
+                return k
+            def walk_inner(stmts, prefix, k):
+                for s in stmts:
+                    if isinstance(s, (ast.FunctionDef, ast.AsyncFunctionDef, ast.ClassDef)): continue
+                    if isinstance(s, (ast.For, ast.While)):
+                        self._loop_keys[id(s)] = (prefix + [k])
+                        walk(s.body, prefix + [k]); walk(s.orelse, prefix + [k])
+                        k += 1
+                    else:
+                        for fld in ('body', 'orelse', 'finalbody'):
+                            sub = getattr(s, fld, None)
+                            if isinstance(sub, list) and sub and isinstance(sub[0], ast.stmt):
+                                k = walk_inner(sub, prefix, k)
+                        for h in getattr(s, 'handlers', []) or []:
+                            k = walk_inner(h.body, prefix, k)
+                return k
+            walk_inner(self.fn.body, [], 0)
+        path = self._loop_keys[id(st)]
+        return '.'.join(map(str, path)), path[-1]
 
     def assigned_names(self, st):
         names = set(); heapnames = set()
@@ -949,7 +988,7 @@ class VC:
     def st_While(self, st, P): return self.loop(st, P, False)
 
     def loop(self, st, P, is_for):
-        key, ordinal = self.loop_key()
+        key, ordinal = self.loop_key(st)
         spec = self.c.loops.get(key)
         idx = '__i' + key
         if is_for:
